@@ -24,17 +24,22 @@ thread_local! {
 /// element, `0xff` is malformed (`Err`), `0xfe` makes the element decoder panic, and a missing byte
 /// is "input exhausted".
 #[derive(Debug)]
-pub struct Tracked {
+pub struct TrackedP<const PAD: usize> {
 	id: u32,
 	#[allow(dead_code)]
 	payload: u8,
+	#[allow(dead_code)]
+	pad: [u8; PAD],
 }
-impl Drop for Tracked {
+pub type Tracked = TrackedP<0>;
+/// 1 KiB elements: `decode_vec_chunked` then works in chunks of 16, so N = 40 spans three chunks.
+pub type TrackedBig = TrackedP<1016>;
+impl<const PAD: usize> Drop for TrackedP<PAD> {
 	fn drop(&mut self) {
 		LEDGER.with(|l| l.borrow_mut().drops.push(self.id));
 	}
 }
-impl Decode for Tracked {
+impl<const PAD: usize> Decode for TrackedP<PAD> {
 	fn decode<I: Input>(input: &mut I) -> Result<Self, Error> {
 		let b = input.read_byte()?;
 		match b {
@@ -45,24 +50,24 @@ impl Decode for Tracked {
 				let id = l.next;
 				l.next += 1;
 				l.constructed.push(id);
-				Tracked { id, payload: b }
+				TrackedP { id, payload: b, pad: [0; PAD] }
 			})),
 		}
 	}
 }
-impl DecodeWithMemTracking for Tracked {}
-impl PartialEq for Tracked {
+impl<const PAD: usize> DecodeWithMemTracking for TrackedP<PAD> {}
+impl<const PAD: usize> PartialEq for TrackedP<PAD> {
 	fn eq(&self, o: &Self) -> bool {
 		self.payload == o.payload
 	}
 }
-impl Eq for Tracked {}
-impl PartialOrd for Tracked {
+impl<const PAD: usize> Eq for TrackedP<PAD> {}
+impl<const PAD: usize> PartialOrd for TrackedP<PAD> {
 	fn partial_cmp(&self, o: &Self) -> Option<std::cmp::Ordering> {
 		Some(self.cmp(o))
 	}
 }
-impl Ord for Tracked {
+impl<const PAD: usize> Ord for TrackedP<PAD> {
 	fn cmp(&self, o: &Self) -> std::cmp::Ordering {
 		self.payload.cmp(&o.payload)
 	}
@@ -97,9 +102,27 @@ pub enum Kind {
 }
 
 /// Runs one decode and returns (`ok|err|panic`, constructed, dropped-before-result-drop, held by the result).
-fn observe<T>(f: impl FnOnce() -> Result<T, Error>, elements_in_ok: usize) -> (String, Vec<String>) {
-	LEDGER.with(|l| *l.borrow_mut() = Ledger::default());
-	let r = catch_unwind(AssertUnwindSafe(f));
+fn fresh_ledger() {
+	LEDGER.with(|l| {
+		let mut l = l.borrow_mut();
+		l.next = 0;
+		l.constructed.clear();
+		l.drops.clear();
+		// the ledger's own bookkeeping must not allocate inside a measured window
+		l.constructed.reserve(4096);
+		l.drops.reserve(4096);
+	});
+}
+
+fn observe<T>(f: impl Fn() -> Result<T, Error>, elements_in_ok: usize) -> (String, Vec<String>) {
+	// warm-up (lazily initialised runtime state), then the same case under the allocation counter:
+	// whatever the decode allocated must have been freed once its result is dropped
+	fresh_ledger();
+	drop(catch_unwind(AssertUnwindSafe(&f)));
+	fresh_ledger();
+	let (_, net) = crate::alloc::net_allocated(|| drop(catch_unwind(AssertUnwindSafe(&f))));
+	fresh_ledger();
+	let r = catch_unwind(AssertUnwindSafe(&f));
 	let (constructed, drops_before): (Vec<u32>, Vec<u32>) = LEDGER.with(|l| {
 		let l = l.borrow();
 		(l.constructed.clone(), l.drops.clone())
@@ -110,6 +133,11 @@ fn observe<T>(f: impl FnOnce() -> Result<T, Error>, elements_in_ok: usize) -> (S
 		Err(_) => "panic",
 	};
 	let mut problems = vec![];
+	if net > 0 {
+		problems.push(format!("{} bytes allocated during the decode are still allocated after its result was dropped (leak)", net));
+	} else if net < 0 {
+		problems.push(format!("{} more bytes freed than allocated during the decode", -net));
+	}
 	let handed = if outcome == "ok" { constructed.len() - drops_before.len() } else { 0 };
 	if outcome == "ok" {
 		// a successful decode hands over a fully initialised value: nothing dropped yet
@@ -157,7 +185,7 @@ fn script(n: usize, k: usize, kind: Kind, prefix: &[u8]) -> Vec<u8> {
 	bs
 }
 
-fn case<T>(ctx: &mut Ctx, shape: &str, model_shape: Option<&str>, n: usize, k: usize, kind: Kind, prefix: &[u8], dec: impl FnOnce(&[u8]) -> Result<T, Error>) {
+fn case<T>(ctx: &mut Ctx, shape: &str, model_shape: Option<&str>, n: usize, k: usize, kind: Kind, prefix: &[u8], dec: impl Fn(&[u8]) -> Result<T, Error>) {
 	let bs = script(n, k, kind, prefix);
 	let (summary, problems) = observe(|| dec(&bs), n);
 	for p in problems {
@@ -232,11 +260,67 @@ fn collections(ctx: &mut Ctx, n: usize) {
 		}
 		<BTreeMap<u8, Tracked>>::decode(&mut &v[..])
 	});
+	// 1 KiB elements: failures in the second and third chunk of decode_vec_chunked
+	if n >= 17 {
+		grid!(ctx, "Vec<TrackedBig>", Some("vec"), n, &len, |bs: &[u8]| <Vec<TrackedBig>>::decode(&mut &bs[..]));
+		grid!(ctx, "VecDeque<TrackedBig>", Some("vec"), n, &len, |bs: &[u8]| <VecDeque<TrackedBig>>::decode(&mut &bs[..]));
+		grid!(ctx, "Vec<[TrackedBig; 1]>", Some("vec"), n, &len, |bs: &[u8]| <Vec<[TrackedBig; 1]>>::decode(&mut &bs[..]));
+	}
 	// depth limit hit inside: Vec<Box<Tracked>> needs depth 2
 	let bs = script(n, n, Kind::None, &len);
 	let (_s, problems) = observe(|| <Vec<Box<Tracked>>>::decode_with_depth_limit(1, &mut &bs[..]), n);
 	for p in problems {
 		ctx.oracle_fail("C10", format!("Vec<Box<Tracked>> (N={}) with depth limit 1: {}", n, p));
+	}
+}
+
+#[derive(Decode)]
+pub struct Chain(pub Tracked, pub Option<Box<Chain>>);
+
+/// The depth limit is hit exactly at a holder (the raw allocation of `Box::decode` must not
+/// outlive the failed call), at every level of a chain, and inside collections.
+fn holders_under_depth_limit(ctx: &mut Ctx) {
+	let one = [5u8];
+	macro_rules! limited {
+		($shape:expr, $t:ty, $bytes:expr, $limits:expr, $elems:expr) => {
+			for limit in $limits {
+				let bs: &[u8] = $bytes;
+				let (_s, problems) = observe(|| <$t>::decode_with_depth_limit(limit, &mut &bs[..]), $elems);
+				for p in problems {
+					ctx.oracle_fail("C10", format!("{} with depth limit {}: {}", $shape, limit, p));
+				}
+				ctx.count("ledger:cases", 1);
+				ctx.count("ledger:depth-limit-cases", 1);
+			}
+		};
+	}
+	limited!("Box<Tracked>", Box<Tracked>, &one, 0..3u32, 1);
+	limited!("Rc<Tracked>", Rc<Tracked>, &one, 0..3u32, 1);
+	limited!("Arc<Tracked>", Arc<Tracked>, &one, 0..3u32, 1);
+	limited!("Box<Box<Tracked>>", Box<Box<Tracked>>, &one, 0..4u32, 1);
+	limited!("Box<[Tracked; 3]>", Box<[Tracked; 3]>, &[1, 2, 3], 0..3u32, 3);
+	limited!("(Tracked, Box<Tracked>)", (Tracked, Box<Tracked>), &[1, 2], 0..3u32, 2);
+	limited!("[Box<Tracked>; 3]", [Box<Tracked>; 3], &[1, 2, 3], 0..3u32, 3);
+	limited!("Option<Box<Tracked>>", Option<Box<Tracked>>, &[1, 7], 0..3u32, 1);
+	// a six-node chain: Tracked, Some(Box(Tracked, Some(Box(...)))) ... None
+	let mut chain = vec![];
+	for i in 0..6u8 {
+		chain.push(i);
+		chain.push(if i == 5 { 0 } else { 1 });
+	}
+	limited!("Chain of 6 boxed nodes", Chain, &chain, 0..8u32, 6);
+	// first boxed element at every position of a 12-element vector of options
+	for pos in 0..12usize {
+		let mut bs = parity_scale_codec::Compact(12u32).encode();
+		for i in 0..12usize {
+			if i >= pos {
+				bs.push(1);
+				bs.push(i as u8);
+			} else {
+				bs.push(0);
+			}
+		}
+		limited!("Vec<Option<Box<Tracked>>> first box at varying position", Vec<Option<Box<Tracked>>>, &bs, 0..3u32, 12 - pos);
 	}
 }
 
@@ -258,9 +342,10 @@ pub fn ledger_stream(ctx: &mut Ctx) {
 		arrays::<32>(ctx);
 		arrays::<33>(ctx);
 	}
-	for n in [0usize, 1, 2, 3, 7, 40] {
+	for n in [0usize, 1, 2, 3, 7, 17, 33, 40] {
 		collections(ctx, n);
 	}
+	holders_under_depth_limit(ctx);
 	// Option / Result / tuples / derived types: fixed shapes, failure at every element position
 	grid!(ctx, "Option<Tracked> (Some)", None, 1, &[1], |bs: &[u8]| <Option<Tracked>>::decode(&mut &bs[..]));
 	grid!(ctx, "Result<Tracked, Tracked> (Err)", None, 1, &[1], |bs: &[u8]| <Result<Tracked, Tracked>>::decode(&mut &bs[..]));
